@@ -405,6 +405,10 @@ def _simplify(e):
             for (n, x) in inner[3]:
                 if n == e[2]:
                     return x
+        if inner[0] == 'agg' and inner[1] == 'adt' and len(inner[3]) == 1 and str(inner[3][0][0]) == '0' and str(e[2]) == '0' \
+                and inner[2].rsplit("::", 1)[0].rsplit("::", 1)[-1] == inner[2].rsplit("::", 1)[-1]:
+            # a private newtype `Wrapper(x)`: `.0` of the literal is x (a struct, not an enum variant: path ends Name::Name)
+            return inner[3][0][1]
         return (k, b, e[2])
     if k == 'variant':
         return (k, simplify(e[1]), e[2])
